@@ -312,6 +312,10 @@ func (e StdEng) Dot(x, y Tensor, opts ...FuncOpt) (retVal Tensor, err error) {
 		// defer ReturnTensor(rd)
 
 		retVal = reuse
+	} else if incr != nil {
+		// the contraction is added into the increment tensor (which Add refuses if its shape does not fit)
+		defer ReturnTensor(rd)
+		return e.Add(incr, rd, UseUnsafe())
 	} else {
 		retVal = rd
 	}
